@@ -123,6 +123,21 @@ fn transform_module(
         connections.extend(arch.connections.iter().cloned());
     }
 
+    // (4b) Two submodule fields of one name (e.g. an own one and an inherited one, or `x[2]` next
+    // to `x[3]`) would create two nodes at the same path when the tree is instantiated.
+    for i in 0..submodules.len() {
+        for j in (i + 1)..submodules.len() {
+            let (a, b) = (&submodules[i].name, &submodules[j].name);
+            let same_shape = matches!(
+                (a.kardinality, b.kardinality),
+                (Kardinality::Atom, Kardinality::Atom) | (Kardinality::Cluster(_), Kardinality::Cluster(_))
+            );
+            if a.ident == b.ident && same_shape {
+                return Err(ErrorKind::SymbolAlreadyDefined(b.to_string()).into());
+            }
+        }
+    }
+
     // (5) Parse connections with elsewise fully defined node. If the node is generic, connections on the generic node
     // must work with the placeholders only
     let connections =
